@@ -104,6 +104,17 @@ def sock_cases(tier, rnd):
             ops = [["net", "refuse", 0.0]] * chain + \
                   [["send", "quick_timer", pol, "inline"], ["adv", 2.0 * chain + 3.0]]
             out.append(ops)
+    # --- the link returns before the expiry, but a connection subscriber is still busy with
+    #     connected=True when the lifetime ends: nothing may be written at or after the expiry
+    for pol, (r, L) in pols.items():
+        if L > 5:
+            continue
+        for back in (0.3 * L, L - 1e-3):
+            for busy in (L, 2 * L + 0.5):
+                out.append([["q"], ["slow_conn", busy], ["net", "accept", back], ["fin"], ["q"],
+                            ["send", "zone_ctrl", pol, "inline"],
+                            ["send", "ac_ctrl", "long", "inline"],
+                            ["adv", back + busy + 3.0]])
     # --- two messages: the retried one must go first on the next connection
     for n in (1, 2, 3):
         out.append([["q"], ["wfail", n], ["net", "accept", 0.5],
